@@ -264,6 +264,16 @@ void harness(void)
             want[10] = want[11] = 0;
         }
         r = irc_pton(&addr, &bits, s, 0);
+#ifdef VP_NOT_AN_ADDRESS
+        /* a layout outside the documented syntax (e.g. five dotted components): the property only
+         * asks that it is rejected or parsed without touching memory - decided by CBMC's own
+         * obligations (bounds, shift distance, overflow) on the real code; nothing is asserted
+         * about the result */
+        VP_ASSERT(r <= len, "characters consumed never exceed the string");
+        VP_COVER(r == 0, "opt: text rejected");
+        VP_COVER(1, "parser returned");
+        (void)plen; (void)ok; (void)wild;
+#else
         if (ok) {
             VP_ASSERT(r == len, "a CIDR / wildcard text is accepted whole");
             VP_ASSERT(bits == plen, "it yields the documented prefix length (a.b.c.d/n: 96+n, x:y::/n: n, a.b.*: 96+8k, x:y:*: 16k, *: 0)");
@@ -277,6 +287,7 @@ void harness(void)
 #endif
 #ifdef VP_CAN_REJECT
         VP_COVER(!ok, "out-of-range octet or prefix length");
+#endif
 #endif
     }
 #else
